@@ -2,3 +2,6 @@ import KiraModel.Num
 import KiraModel.Model.Units
 import KiraModel.Model.Easing
 import KiraModel.Model.ClockTime
+import KiraModel.Model.Lfo
+import KiraModel.Model.Tweener
+import KiraModel.Model.ModulatorChunk
